@@ -78,3 +78,10 @@ Print Assumptions batch_within_budget_refuted.
 Theorem any_of_is_disjunction_refuted : ~ any_of_is_disjunction_stmt.
 Proof. exact any_of_is_disjunction_refuted_proof. Qed.
 Print Assumptions any_of_is_disjunction_refuted.
+
+(* ... but it is, for operands that are each exactly one chart that contributes something *)
+Theorem any_of_is_disjunction_partial : forall (bug : Type) has cond qs cs q (x : bug),
+  qs <> [] -> Forall2 unit_operand qs cs -> any_of qs = Some q ->
+  sem bug has cond q x = opt_or_list (map (fun o => sem bug has cond o x) qs).
+Proof. exact any_of_is_disjunction_partial_proof. Qed.
+Print Assumptions any_of_is_disjunction_partial.
